@@ -134,7 +134,7 @@ def run(ctx):
     for v, (c, p, o) in zip(verdicts, kept):
         hist[v] = hist.get(v, 0) + 1
         if v == 2:
-            ctx.violation('lost wake-up (a waiter sleeps while the word holds its target and nothing is runnable): %s -> %s' % (line_of(c)[:200], o[:300]),
+            ctx.violation('lost wake-up (a waiter sleeps while the word holds its target and nothing is runnable) or wait() returned before completion: %s -> %s' % (line_of(c)[:200], o[:300]),
                           {'case': line_of(c), 'output': o, 'cmd': 'echo "<case>" | build/harness/h_event-*'})
         elif v == 1:
             ctx.broken.append('correspondence L(C21): real trace differs from the model on ' + line_of(c)[:160] + ' -> ' + o[:200])
